@@ -63,8 +63,14 @@ def run(ctx):
         "clients cancel only tasks whose schedule call has started and whose function they have not yet seen run",
         "bounded exploration: preemption bound 2 (quick) / 3 (thorough) on the core scenarios, PCT/random beyond",
     ]
-    0 and ctx.mc(SPEC_DIR, "ThreadSched", "MC.cfg", timeout=1500, xmx="12g",
-           required_actions=["ThreadSched!T_Wait", "ThreadSched!T_RunOne", "ThreadSched!D_Join"])
+    req = ["ThreadSched!T_Wait", "ThreadSched!T_RunOne", "ThreadSched!T_Timeout", "ThreadSched!T_Reacquire"]
+    ctx.mc(SPEC_DIR, "MCThreadSched", "MC.cfg", timeout=1500, xmx="8g", required_actions=req)
+    ctx.mc(SPEC_DIR, "MCThreadSched", "MC2.cfg", timeout=1500, xmx="8g", required_actions=req)
+    ctx.mc(SPEC_DIR, "MCThreadSched", "MC_live.cfg", timeout=1500, xmx="8g", coverage=False)
+    # self-test of the model (not a verdict): the pinned, unrepaired algorithm must violate ExactlyOnce in the model
+    from vlib import tlc as _tlc
+    r = _tlc.run_tlc(SPEC_DIR, "MCThreadSched", "MC_nofix.cfg", ctx.outdir, timeout=600, xmx="4g")
+    ctx.extra["model_of_unrepaired_algorithm_violates"] = r.violated
     rng = random.Random(ctx.seed)
     blocks = []
     budget, bound = (350, 2) if not thorough else (6000, 3)
